@@ -376,6 +376,8 @@ def gen_item(rng, tier, ver="3.7"):
         if rng.chance(0.3):
             g["rename"] = {"names": rng.randint(0, 20) if rng.chance(0.6) else None, "co_name": rng.chance(0.3),
                            "varnames": rng.randint(0, 20) if rng.chance(0.5) else None}
+        if rng.chance(0.3):
+            g["line_tail"] = rng.choice(["noline", "noline", 3, 100])
         item["graft"] = g
     return item
 
@@ -529,6 +531,10 @@ def exec_exchange(plan, tree, prop, log=None):
                 log.count("docs_with_surrogate_string")
             if '"positional_only"' in D:
                 log.count("docs_with_positional_only_args")
+            if '"_additional_line"' in D:
+                log.count("docs_with_additional_line")
+                if '"line": null' in D:
+                    log.count("docs_with_additional_line_without_line")
             if want_c07:
                 where = "producer %s doc%s" % (pver, " (normalized)" if tag else "")
                 if monitors_c07(log, D, st, where):
@@ -928,7 +934,7 @@ def exec_cli(plan, tree, log=None):
             if jm is None or not sem.get("json_equal"):
                 log.violate("C16", "L3-json-does-not-load-to-same-data", "json", {"argv": argv[:8], "why": sem.get("json_why")})
                 return log
-        if plan["flags"].get("dis_after") and exp.get("same_instructions") is False and plan["flags"].get("dis"):
+        if plan["flags"].get("dis_after") and exp.get("same_instructions") is False:
             log.violate("C16", "L4b-dis-after-not-same-instructions", "normalized" if not plan["flags"].get("no_normalize") else "no-normalize", {"argv": argv[:8]})
             return log
         if plan["flags"].get("dis_after") and plan["flags"].get("dis") and plan["flags"].get("no_normalize"):
